@@ -27,6 +27,7 @@ package varmq
 //             waituntil acquire H, waitidle barrier (everything so far happens before it)
 
 import (
+	"sort"
 	"bufio"
 	"fmt"
 	"strconv"
@@ -87,6 +88,33 @@ func projectHB(s *vt.Sched) *hbProj {
 	}
 	held := map[int][]int{} // thread -> write-locked mutexes, in order of acquisition
 	syn := func(i, t, acq, rel int) { p.evs = append(p.evs, hbEvent{kind: 's', t: t, acq: acq, rel: rel, src: i}) }
+	// structs that are overwritten as a whole (*p = T{...}): a plain write of every word, the
+	// atomic ones included. Their atomic operations then also count as accesses of that word
+	// (reads: atomics never race with each other), placed between the operation's acquire and release.
+	whole := map[int]bool{}
+	for _, ev := range s.Log {
+		if ev.Kind == "plainW*" {
+			whole[ev.Obj] = true
+		}
+	}
+	wholeWords := map[int]map[string]bool{} // struct -> locations written by a whole-struct write
+	if len(whole) > 0 {
+		for _, ev := range s.Log {
+			if ev.Kind == "plainR" || ev.Kind == "plainW" {
+				if whole[ev.Obj] {
+					if wholeWords[ev.Obj] == nil {
+						wholeWords[ev.Obj] = map[string]bool{}
+					}
+					wholeWords[ev.Obj][siteTab[ev.Site].Field+"@o"+strconv.Itoa(ev.Obj)] = true
+				}
+			} else if _, _, ok := isAtomicKind(ev.Kind); ok && whole[ev.Owner] {
+				if wholeWords[ev.Owner] == nil {
+					wholeWords[ev.Owner] = map[string]bool{}
+				}
+				wholeWords[ev.Owner]["atomic@o"+strconv.Itoa(ev.Obj)] = true
+			}
+		}
+	}
 	for i, ev := range s.Log {
 		t := ev.Tid
 		if t < 0 {
@@ -98,6 +126,15 @@ func projectHB(s *vt.Sched) *hbProj {
 		case k == "plainR" || k == "plainW":
 			f := siteTab[ev.Site].Field
 			p.evs = append(p.evs, hbEvent{kind: 'a', t: t, loc: loc(f + "@o" + o), w: k == "plainW", src: i})
+		case k == "plainW*":
+			var ws []string
+			for l := range wholeWords[ev.Obj] {
+				ws = append(ws, l)
+			}
+			sort.Strings(ws)
+			for _, l := range ws {
+				p.evs = append(p.evs, hbEvent{kind: 'a', t: t, loc: loc(l), w: true, src: i})
+			}
 		case k == "lock":
 			syn(i, t, sy("mW"+o), 0)
 			syn(i, t, sy("mR"+o), 0)
@@ -184,7 +221,13 @@ func projectHB(s *vt.Sched) *hbProj {
 				if r {
 					ri = x
 				}
-				syn(i, t, ai, ri)
+				if whole[ev.Owner] {
+					syn(i, t, ai, 0)
+					p.evs = append(p.evs, hbEvent{kind: 'a', t: t, loc: loc("atomic@o" + o), w: false, src: i})
+					syn(i, t, 0, ri)
+				} else {
+					syn(i, t, ai, ri)
+				}
 			} else if ev.Site == 0 && k != "exit" && k != "panic" && k != "yield" && k != "forcetick" && k != "tick" {
 				// a mark of the scenario: what the client published so far
 				syn(i, t, 0, sy("H"))
@@ -293,9 +336,13 @@ func (m *mon) c19() {
 		return
 	}
 	a, b := p.evs[r.i], p.evs[r.j]
+	atomicWord := strings.HasPrefix(p.locName[b.loc], "atomic@")
 	rw := func(w bool) string {
 		if w {
 			return "write"
+		}
+		if atomicWord {
+			return "atomic operation" // on a word that is also overwritten by a plain struct assignment
 		}
 		return "read"
 	}
